@@ -197,6 +197,14 @@ func runProc(p *prop, bin string, name string, args []string, extraEnv []string,
 	os.MkdirAll(cwd, 0o755)
 	cmd.Dir = cwd
 	cmd.Env = append(env(repo), extraEnv...)
+	// Memory: 16 shards run side by side. Race-instrumented binaries keep several times the heap, so they
+	// collect at the default pace; every process gets a soft limit (the collector works harder near it,
+	// nothing fails because of it).
+	if strings.Contains(filepath.Base(bin), ".race.") {
+		cmd.Env = append(cmd.Env, "GOGC=100", "GOMEMLIMIT=2GiB")
+	} else {
+		cmd.Env = append(cmd.Env, "GOMEMLIMIT=3GiB")
+	}
 	cmd.Env = append(cmd.Env, "VERIF_STATS="+statsFile, "VERIF_JOURNAL="+journalDir())
 	if repo != "/repo" && !hasEnv(extraEnv, "VERIF_REPLAY_DIR") {
 		cmd.Env = append(cmd.Env, "VERIF_REPLAY_DIR="+filepath.Join(workDir, "alt-replays", p.ID))
